@@ -9,6 +9,7 @@ import (
 	"testing/fstest"
 
 	"golang.org/x/net/html"
+	"golang.org/x/net/html/atom"
 
 	"github.com/titpetric/vuego"
 )
@@ -126,7 +127,7 @@ func c01Render(files map[string]string, tpl string, v string) (string, error) {
 
 // skeleton (element and attribute names in document order) and the probe's observed sink content
 func c01Parse(out string, probe string, attr string) (skel string, sink string, found bool) {
-	nodes, err := html.ParseFragment(strings.NewReader(out), &html.Node{Type: html.ElementNode, Data: "body", DataAtom: 0x0})
+	nodes, err := html.ParseFragment(strings.NewReader(out), &html.Node{Type: html.ElementNode, Data: "body", DataAtom: atom.Body})
 	if err != nil {
 		nodes, err = html.ParseFragment(strings.NewReader(out), nil)
 	}
